@@ -13,6 +13,7 @@ import (
 	"sort"
 	"strconv"
 	"strings"
+	"sync/atomic"
 	"testing"
 	"testing/cryptotest"
 	"testing/synctest"
@@ -76,6 +77,9 @@ func register(prop string, sc ...Scenario) { registry[prop] = append(registry[pr
 
 // execRun performs one run in a fresh synctest bubble. vals==nil: generate from seed.
 func execRun(t *testing.T, prop string, sc *Scenario, seed uint64, vals []uint32, tier string, keepLabels bool) (res *RunResult) {
+	progress.Store(time.Now().UnixNano())
+	currentRun.Store(fmt.Sprintf("%s seed %d", sc.Name, seed))
+
 	defer func() {
 		// a panic that escaped the bubble (e.g. synctest deadlock report) is a harness problem
 		if r := recover(); r != nil {
@@ -115,6 +119,28 @@ func execRun(t *testing.T, prop string, sc *Scenario, seed uint64, vals []uint32
 	})
 
 	return res
+}
+
+var (
+	progress   atomic.Int64
+	currentRun atomic.Value
+)
+
+// startWatchdog kills the process when one run does not finish within the limit (a resolution or a
+// writer pass that never returns): the driver ties the death to the announced seed and reports it.
+func startWatchdog(limit time.Duration) {
+	progress.Store(time.Now().UnixNano())
+
+	go func() {
+		for {
+			time.Sleep(time.Second)
+
+			if time.Since(time.Unix(0, progress.Load())) > limit {
+				fmt.Printf("WATCHDOG: run %v did not finish within %v - non-termination\n", currentRun.Load(), limit)
+				os.Exit(3)
+			}
+		}
+	}()
 }
 
 // ReplayFile is the self-contained description of a failing run.
@@ -211,6 +237,8 @@ func Worker(t *testing.T) {
 	if len(scs) == 0 {
 		t.Fatalf("no scenarios for property %s", prop)
 	}
+
+	startWatchdog(time.Duration(envInt("VERIF_RUN_LIMIT_S", 40)) * time.Second)
 
 	if rp := os.Getenv("VERIF_REPLAY"); rp != "" {
 		replayMain(t, prop, scs, rp)
